@@ -87,6 +87,7 @@ pub struct WorkerOutcome {
 
 /// Run one worker subprocess over [from,to), feeding finished cases to `on_case`.
 fn run_one_worker(
+    exe: Option<&std::path::Path>,
     args: &[String],
     watchdog_s: u64,
     registry: &Arc<Mutex<BTreeMap<u64, Live>>>,
@@ -94,7 +95,10 @@ fn run_one_worker(
     t0: Instant,
     mut on_case: impl FnMut(u64, &Value),
 ) -> WorkerOutcome {
-    let exe = std::env::current_exe().expect("current_exe");
+    let exe = match exe {
+        Some(e) => e.to_path_buf(),
+        None => std::env::current_exe().expect("current_exe"),
+    };
     let mut child = Command::new(exe)
         .args(args)
         .stdin(Stdio::null())
@@ -223,7 +227,7 @@ pub fn replay_in_subprocess(id: &str, path: &std::path::Path, watchdog_s: u64) -
         id.to_string(),
         path.to_string_lossy().to_string(),
     ];
-    let out = run_one_worker(&args, watchdog_s, &registry, 0, t0, |_c, v| {
+    let out = run_one_worker(None, &args, watchdog_s, &registry, 0, t0, |_c, v| {
         if let Some(vs) = v.get("v").and_then(|s| s.as_array()) {
             for x in vs {
                 if let Some(s) = x.get("sig") {
@@ -290,8 +294,14 @@ pub fn run_check(check: &'static dyn Check, tier: Tier, seed: u64, jobs: usize) 
         tier.name()
     );
 
+    let fast_exe: Option<PathBuf> = if check.fast_flavour_share() && tier == Tier::Thorough {
+        std::env::var("CAOSIM_FAST_EXE").ok().map(PathBuf::from).filter(|p| p.exists())
+    } else {
+        None
+    };
     let mut handles = vec![];
     for j in 0..jobs {
+        let fast_exe = fast_exe.clone();
         let next = next.clone();
         let agg = agg.clone();
         let registry = registry.clone();
@@ -311,7 +321,11 @@ pub fn run_check(check: &'static dyn Check, tier: Tier, seed: u64, jobs: usize) 
                     from.to_string(),
                     to.to_string(),
                 ];
-                let out = run_one_worker(&args, watchdog_s, &registry, j as u64, t0, |c, v| {
+                let fast = fast_exe.as_ref().filter(|_| b % 2 == 1);
+                if fast.is_some() {
+                    *agg.lock().unwrap().stats.entry("batches_in_release_like_build".into()).or_insert(0) += 1;
+                }
+                let out = run_one_worker(fast.map(|p| p.as_path()), &args, watchdog_s, &registry, j as u64, t0, |c, v| {
                     agg.lock().unwrap().merge_case(c, v)
                 });
                 if let Some(e) = out.harness_error {
